@@ -10,10 +10,11 @@ pathname expansion) against `Spec/Glob.lean` (the POSIX/bash whole-string matchi
 Quantifiers: every pattern (any nesting), every subject string, extglob / nocasematch / dotglob on
 and off.
 
-The code violates the full statement in three independent ways, each with a proved counter-example
-(`not_group_cex`, `bracket_leading_rbracket_cex`, `nocase_class_cex`); the proved `_partial`
-theorems carry the corresponding decidable guards. (A fourth, line anchoring under `(?ms)`, was
-repaired in `compile_regex`; `exact_match_is_whole_string` now holds for every subject.)
+The code violates the full statement in two independent ways, each with a proved counter-example
+(`not_group_cex`, `nocase_class_cex`); the proved `_partial` theorems carry the corresponding
+decidable guards. Repaired since: line anchoring under `(?ms)` (`exact_match_is_whole_string` holds
+for every subject), a leading `]` in a bracket expression (`bracket_leading_rbracket`), and the regex
+crate's private class syntax leaking through (`bracket_text_is_plain`, `caretFirst_false`).
 -/
 namespace BrushVerif.C08
 open BrushVerif.Wire BrushVerif.Pattern BrushVerif.Glob
@@ -301,12 +302,56 @@ theorem not_group_empty_cex :
   · decide +kernel
   · simp [Matches]
 
-/-- `[]]` must match `]`; brush's grammar never accepts `]` as a bracket member, reads the text as
-three literals and answers no. The POSIX reading answers yes. -/
-theorem bracket_leading_rbracket_cex :
-    exactlyMatches false false "[]]".toList "]".toList = false ∧
+/-! ## bracket expressions: the repaired readings (formerly counter-examples) -/
+
+/-- A `]` right after `[`, `[!` or `[^` is a member: `[]]` matches `]`, `[!]]` does not, `[]a]` matches
+both, `[]-a]` is the range from `]` to `a`; brush and the POSIX reading agree. -/
+theorem bracket_leading_rbracket :
+    exactlyMatches false false "[]]".toList "]".toList = true ∧
     specMatches false false "[]]".toList "]".toList = some true ∧
-    patternToRegexStr false "[]]".toList = "\\[\\]\\]".toList := by
+    patternToRegexStr false "[]]".toList = "[\\]]".toList ∧
+    exactlyMatches false false "[!]]".toList "]".toList = false ∧
+    exactlyMatches false false "[!]]".toList "a".toList = true ∧
+    exactlyMatches false false "[]a]".toList "a".toList = true ∧
+    exactlyMatches false false "[]-a]".toList "^".toList = true ∧
+    exactlyMatches false false "[]".toList "[]".toList = true ∧
+    specParse false "[]a]".toList = some (parsePat false "[]a]".toList) := by
+  decide +kernel
+
+/-- What reaches the regex crate as class text is free of its private syntax: `\a` is the letter,
+`--`/`&&`/`~~` are members or ranges, a `^` left in front by a dropped reversed range is a member. -/
+theorem bracket_text_is_plain :
+    patternToRegexStr false "[\\a\\!\\<]".toList = "[a\\!<]".toList ∧
+    exactlyMatches false false "[\\a]".toList "a".toList = true ∧
+    patternToRegexStr false "[a!--]".toList = "[a!-\\-]".toList ∧
+    exactlyMatches false false "[a!--]".toList ",".toList = true ∧
+    patternToRegexStr false "[--]".toList = "[-\\-]".toList ∧
+    patternToRegexStr false "[a&&b~]".toList = "[a\\&\\&b\\~]".toList ∧
+    exactlyMatches false false "[a&&b]".toList "&".toList = true ∧
+    patternToRegexStr false "[b-a^x]".toList = "[\\^x]".toList ∧
+    exactlyMatches false false "[b-a^x]".toList "x".toList = true ∧
+    exactlyMatches false false "[b-a^x]".toList "a".toList = false := by
+  decide +kernel
+
+/-- For **every** parsed pattern: the text of a non-inverted class never starts with `^` (each member
+text starts with a backslash, `[`, or a character other than `^`), so the regex crate can never read
+a member as a negation mark — whatever ranges were dropped in front of it. -/
+theorem caretFirst_false : ∀ p : Pat, p.caretFirst = false := by
+  intro p
+  induction p with
+  | bracket inv ms =>
+    simp only [Pat.caretFirst]
+    cases h : renderMembers ms with
+    | nil => simp
+    | cons c t =>
+      have : c ≠ '^' := fun e => renderMembers_ne_caret ms t (e ▸ h)
+      cases inv <;> simp [this]
+  | seq a b iha ihb => simp [Pat.caretFirst, iha, ihb]
+  | alt a b iha ihb => simp [Pat.caretFirst, iha, ihb]
+  | group k b ih => simp [Pat.caretFirst, ih]
+  | _ => simp [Pat.caretFirst]
+
+example : (parsePat false "[b-a^x]".toList) = .seq (.bracket false [.single ⟨false, '^'⟩, .single ⟨false, 'x'⟩]) .eps := by
   decide +kernel
 
 /-- with nocasematch the regex engine folds named classes (`[[:upper:]]` matches `a`); bash does not -/
